@@ -500,7 +500,10 @@ Section Exact.
     - revert D P. apply payload_inv. intros o Ho. exact (ctx_forall_obj (ty_cdirect ctx) ctx o Hd Ho).
   Qed.
   Lemma inv_arr a et : inv (TArray a et) -> inv et.
-  Proof. intros [S [N D]]. repeat split; assumption. Qed.
+  Proof.
+    intros [S [N D]]. repeat split; try assumption.
+    simpl in S. apply andb_true_iff in S. destruct S as [_ S]. exact S.
+  Qed.
   Lemma inv_map a it vt : inv (TMap a it vt) -> inv vt.
   Proof.
     intros [S [N D]]. repeat split; try assumption.
